@@ -5715,7 +5715,8 @@ class CodegenCtx:
                 result += f"({self._generate_code_for_int_expr(child, ctx, out_expr)})"
             return result
         elif isinstance(intexpr, CompareIntegerExpr):
-            return f"({self._generate_code_for_int_expr(intexpr.left, ctx, out_expr)}) {intexpr.op.value} ({self._generate_code_for_int_expr(intexpr.right, ctx, out_expr)})"
+            # (the operands have types of their own: the destination only constrains the type of the comparison's result)
+            return f"({self._generate_code_for_int_expr(intexpr.left, ctx)}) {intexpr.op.value} ({self._generate_code_for_int_expr(intexpr.right, ctx)})"
         elif isinstance(intexpr, (DisjunctionIntegerExpr, ConjunctionIntegerExpr)):
             result = f"({self._generate_code_for_int_expr(intexpr.children[0], ctx, out_expr)})"
             for child in intexpr.children[1:]:
